@@ -19,7 +19,7 @@ def main():
         ver = json.load(open(os.path.join(d, 'verify.json'))) if os.path.exists(os.path.join(d, 'verify.json')) else {}
         runs = []
         for line in rd('detect.log').splitlines():
-            m = re.match(r'(\S+) (\S+) tier=(\S+) seed=(\S+) rc=(\d+) (\d+)s viol=(\d+) :: (.*)', line)
+            m = re.match(r'(\S+) (\S+) tier=(\S+) seed=(\S+) rc=(\d+) (\d+)s viol=(\d+) ::\s?(.*)', line)
             if m:
                 runs.append({'check': m.group(2), 'tier': m.group(3), 'seed': int(m.group(4)), 'exit': int(m.group(5)),
                              'wall_s': int(m.group(6)), 'violation_lines': int(m.group(7)),
